@@ -59,6 +59,14 @@ MirrorSet(m) == CASE m = "" -> {}
                   [] m = "r2.test,m1.test" -> {"m1.test", "r2.test"}
                   [] m = "u.test" -> {"u.test"}
                   [] m = DockerName -> {DockerName}
+                  [] OTHER -> {}
+
+\* TLS material is named by labels: the server of address a presents a certificate that only
+\* the CA certificate labelled CertOf(a) vouches for; client certificate cc pairs with key KeyOf(cc)
+CertOf(a) == CASE a = "r1.test" -> "ca-r1.test" [] a = "r2.test" -> "ca-r2.test"
+               [] a = "alt.test" -> "ca-alt.test" [] a = "u.test" -> "ca-u.test"
+               [] a = "m1.test" -> "ca-m1.test" [] OTHER -> "ca-other"
+KeyOf(cc) == CASE cc = "cc1" -> "ck1" [] cc = "cc2" -> "ck2" [] OTHER -> "none"
 
 TLSRank(t) == CASE t \in {"", "enabled"} -> 2 [] t = "insecure" -> 1 [] t = "disabled" -> 0
 =============================================================================
